@@ -321,6 +321,13 @@ class UnaryOp(Expression):
             if self._op is self.Operator.ABS:
                 return f"abs({self._arg.write(scope)})"
 
+            if self._op is self.Operator.NEG and isinstance(
+                TypeQualifier.decay(self._arg.result), Unsigned
+            ):
+                # numeric_std defines unary minus for signed only;
+                # "-"(natural, unsigned) is the two's complement Unsigned.__neg__ computes
+                return f"(0) - ({self._arg.write(scope)})"
+
             op = UnaryOp.operator_string[self._op]
             return f"{op}({self._arg.write(scope)})"
 
